@@ -11,7 +11,8 @@ The harness calls `random.seed(case["seed"])` in the harness process immediately
 
 Trace events, in the order they happened (ECU side and the command's result-tagged log records interleaved):
   {"k":"q", "t": ground-truth session before, "c": connection number, "p": request bytes,
-   "r": "pos"|"neg"|"sil"|"mis"|"mal"|"drop", "nrc": n, "fb": ECU fell back to its default session by itself}
+   "r": "pos"|"neg"|"sil"|"mis"|"mal"|"drop", "nrc": n, "fb" / "ib": the ECU fell back to its default session
+   by itself after / before this request}
   {"k":"start","s"}  {"k":"end","s"}  {"k":"nrc","code","n"}  {"k":"pos","n"}  {"k":"tmo","n"}
   {"k":"ill","n"}  {"k":"fc","n"}
 """
@@ -68,7 +69,7 @@ def run_case(case: dict[str, Any], mutant: str | None = None) -> dict[str, Any]:
             return
         for e in srv.log[holder["n"]:]:
             out["ev"].append({"k": "q", "t": e["t"], "c": e["c"], "p": e["p"], "r": e["r"], "nrc": e["nrc"],
-                              "fb": e["fb"]})
+                              "fb": e["fb"], "ib": e["ib"]})
         holder["n"] = len(srv.log)
 
     def sink(msg: str) -> None:
@@ -92,8 +93,6 @@ def run_case(case: dict[str, Any], mutant: str | None = None) -> dict[str, Any]:
 
             def accept(wire: Any) -> None:
                 server.conn += 1
-                if ecu.get("refuse_after") is not None and server.conn >= int(ecu["refuse_after"]):
-                    lst.accepting = False
                 assert inner is not None
                 inner(wire)
 
@@ -105,14 +104,33 @@ def run_case(case: dict[str, Any], mutant: str | None = None) -> dict[str, Any]:
                     if wire.on_client_close is not None:
                         wire.on_client_close()
                         wire.on_client_close = None
+                    holder["refuse_left"] = int(ecu.get("refuse_next", 0))
+                    down = ecu.get("down_after_drop")
+                    if down:
+                        # the ECU is unreachable for `down` (virtual) seconds: connection attempts are refused
+                        lst.accepting = False
+                        asyncio.get_running_loop().call_later(float(down), lambda: setattr(lst, "accepting", True))
 
                 server.drop_connection = drop
 
             lst.on_accept = accept
+            # "refuse_next": k -- after a drop the next k connection attempts are refused (count based)
+            listener_open = asyncio.open_connection
+
+            async def opener(*a: Any, **k: Any) -> Any:
+                if holder.get("refuse_left", 0) > 0:
+                    holder["refuse_left"] -= 1
+                    lst.refused += 1
+                    await asyncio.sleep(0)
+                    raise ConnectionRefusedError("fake: connection refused")
+                return await listener_open(*a, **k)
+
+            asyncio.open_connection = opener  # type: ignore[assignment]
             try:
                 fz = PDUFuzzer(PDUFuzzerConfig(**kw))
             except Exception as e:  # noqa: BLE001
                 out["done"] = f"cfg:{type(e).__name__}"
+                asyncio.open_connection = listener_open  # type: ignore[assignment]
                 return
             random.seed(case["seed"])
             try:
@@ -123,8 +141,11 @@ def run_case(case: dict[str, Any], mutant: str | None = None) -> dict[str, Any]:
             except Exception as e:  # noqa: BLE001
                 out["done"] = f"exc:{type(e).__name__}"
                 out["exc"] = repr(e)[:200]
+            finally:
+                asyncio.open_connection = listener_open  # type: ignore[assignment]
             # let pending callbacks of the server side run
             await asyncio.sleep(0)
+            out["refused"] = lst.refused
         flush()
 
     # the server loop's inactivity reset (10 s without a request) reads time.time(): give it the virtual clock
@@ -151,7 +172,74 @@ def run_case(case: dict[str, Any], mutant: str | None = None) -> dict[str, Any]:
               "prefix": list(bytes.fromhex(den["prefix"]))},
         "ev": out["ev"],
         "done": out.get("done", "?"),
+        "refused": int(out.get("refused", 0)),
         "exc": out.get("exc", ""),
         "other": out["other"][:5],
         "origin": case.get("origin", ""),
     }
+
+
+def run_prim(case: dict[str, Any], mutant: str | None = None) -> dict[str, Any]:
+    """One run of a primitive command: case = {"prim": "rdbi"|"pdu", "ecu": {FuzzServer model, "service" = service
+    id of the request}, "cfg": {"data_identifier"| "pdu", "session"}, "den": {"want": hex, "session": int (0 = none)}}."""
+    from gallia.commands.primitive.uds.pdu import SendPDUPrimitive, SendPDUPrimitiveConfig
+    from gallia.commands.primitive.uds.rdbi import ReadByIdentifierPrimitive, ReadByIdentifierPrimitiveConfig
+
+    ecu, cfg, den = case["ecu"], case["cfg"], case["den"]
+    out: dict[str, Any] = {"ev": []}
+    holder: dict[str, Any] = {}
+
+    async def go() -> None:
+        server = FuzzServer(ecu, mutant=mutant)
+        holder["server"] = server
+        kw: dict[str, Any] = dict(target=TARGET)
+        for k in ("data_identifier", "pdu", "session", "tester_present", "ping", "max_retry"):
+            if cfg.get(k) is not None:
+                kw[k] = cfg[k]
+        with serving(server) as lst:
+            inner = lst.on_accept
+
+            def accept(wire: Any) -> None:
+                server.conn += 1
+                assert inner is not None
+                inner(wire)
+
+            lst.on_accept = accept
+            try:
+                if case["prim"] == "rdbi":
+                    cmd: Any = ReadByIdentifierPrimitive(ReadByIdentifierPrimitiveConfig(**kw))
+                else:
+                    cmd = SendPDUPrimitive(SendPDUPrimitiveConfig(**kw))
+            except Exception as e:  # noqa: BLE001
+                out["done"] = f"cfg:{type(e).__name__}"
+                return
+            try:
+                rc = await cmd.run()
+                out["done"] = "ok" if not rc else f"exit{rc}"
+            except SystemExit as e:
+                out["done"] = f"exit{e.code}"
+            except Exception as e:  # noqa: BLE001
+                out["done"] = f"exc:{type(e).__name__}"
+            if case["prim"] == "rdbi":
+                out["result"] = None if cmd.result is None else list(cmd.result)
+            await asyncio.sleep(0)
+
+    import gallia.services.uds.server as server_mod
+
+    real_time = server_mod.time
+    server_mod.time = lambda: asyncio.get_event_loop().time()  # type: ignore[assignment]
+    with capture_results(lambda m: None):
+        try:
+            vloop.run(go(), horizon=1e6)
+        except (TimeoutError, vloop.BlockedForever):
+            out["done"] = "hang"
+        except SystemExit as e:
+            out["done"] = f"exit{e.code}"
+        finally:
+            server_mod.time = real_time  # type: ignore[assignment]
+    srv = holder.get("server")
+    ev = [{"k": "q", "t": e["t"], "c": e["c"], "p": e["p"], "r": e["r"], "nrc": e["nrc"], "fb": e["fb"], "ib": e["ib"]}
+          for e in (srv.log if srv is not None else [])]
+    return {"kind": "prim", "prim": case["prim"], "want": list(bytes.fromhex(den["want"])),
+            "session": int(den["session"]), "ev": ev, "done": out.get("done", "?"),
+            "result": out.get("result"), "origin": case.get("origin", "")}
